@@ -34,9 +34,24 @@ class Flow(object):
         self.cfg = cfg_of(fi)
         self.rd = ReachingDefs(self.cfg, fi.all_param_names())
         self.params = set(fi.all_param_names())
+        self._mut = None
 
     def node_for(self, expr):
         return self.cfg.stmt_node_containing(expr)
+
+    _MUT = ("append", "extend", "update", "add", "insert", "setdefault", "intersection_update", "difference_update")
+
+    def _mutations(self):
+        """name -> [calls name.<mutating method>(...)] in this function"""
+        if self._mut is None:
+            from .loader import body_walk
+            d = {}
+            for c in body_walk(self.fi.node):
+                if isinstance(c, ast.Call) and isinstance(c.func, ast.Attribute) and c.func.attr in self._MUT \
+                        and isinstance(c.func.value, ast.Name):
+                    d.setdefault(c.func.value.id, []).append(c)
+            self._mut = d
+        return self._mut
 
     def prov(self, expr, at=None, _seen=None, deep_calls=True):
         """Provenance of `expr` evaluated at CFG node `at` (default: the
@@ -63,6 +78,16 @@ class Flow(object):
             if not defs:
                 pr.other.add("global:" + e.id)
                 return
+            # accumulators: values put into the container through mutating methods flow into it (flow-insensitive)
+            mk = ("acc", e.id)
+            if mk not in seen:
+                seen.add(mk)
+                for c in self._mutations().get(e.id, []):
+                    cn = self.node_for(c)
+                    for a in c.args:
+                        self._walk(a.value if isinstance(a, ast.Starred) else a, cn, pr, seen, deep_calls)
+                    for k in c.keywords:
+                        self._walk(k.value, cn, pr, seen, deep_calls)
             for dn, val in defs:
                 k = (dn.id, e.id)
                 if k in seen:
